@@ -219,9 +219,13 @@ def gen_update(rng, sess, want=None, plain_as4=False):
         nhl = 4 if fam[0] == 1 else rng.choice([16, 16, 32])
         if fam == (2, 128):
             nhl = 16
+        nh_tail = []
+        if fam == (2, 128) and rng.random() < 0.3:
+            # RFC 4659 3.2.1.1: a link-local VPN-IPv6 address (its own zero RD in front) follows the global one: 48 octets
+            nh_tail = [0] * 8 + [0xFE, 0x80] + [rng.getrandbits(8) for _ in range(14)]
         if fam in sess.extnh and rng.random() < 0.7:
             nhl = 16 if fam[1] == 128 else rng.choice([16, 32])  # RFC 8950: an IPv6 next hop for an IPv4 family
-        d['mp_reach'] = {'fam': fam, 'nh': [rng.getrandbits(8) for _ in range(nhl)],
+        d['mp_reach'] = {'fam': fam, 'nh': [rng.getrandbits(8) for _ in range(nhl)] + (nh_tail if nhl == 16 else []),
                          'nlris': [gen_nlri(rng, fam, ap) for _ in range(rng.choice([1, 1, 2, 3]))]}
     if shape in ('mpwd', 'mix'):
         fam = rng.choice(IPFAMS)
@@ -1143,6 +1147,9 @@ def sig_for(c, diffs):
             return 'C02:as4-merge:exception'
         return 'C02:as4-merge:wrong-path'
     if 'not decoded' in text:
+        mp = c['desc'].get('mp_reach') if c['desc'] else None
+        if mp and tuple(mp['fam']) == (2, 128) and len(mp['nh']) == 40:
+            return 'C02:vpn6-nexthop-48-refused'
         return 'C02:well-formed-update-refused'
     if 'announce' in text or 'withdraw' in text:
         return 'C02:routes-differ'
